@@ -2,8 +2,8 @@
 from reg._common import COMMON_ASSUME
 
 ENTRY = {
-    'lean_files': ['Tables/C09a.lean', 'Tables/C09b.lean', 'Props/C09.lean'],
-    'lemma_files': ['Lemmas/Shift.lean', 'Lemmas/Shift2.lean', 'Lemmas/Bridge.lean', 'Lemmas/VS.lean',
+    'lean_files': ['Tables/C09a.lean', 'Tables/C09b.lean', 'Props/C09.lean', 'Props/C09Rounding.lean'],
+    'lemma_files': ['Lemmas/Rounding.lean', 'Lemmas/RoundingMore.lean', 'Lemmas/RoundingTriPy.lean', 'Lemmas/TriRounding.lean', 'Lemmas/Shift.lean', 'Lemmas/Shift2.lean', 'Lemmas/Bridge.lean', 'Lemmas/VS.lean',
                     'Lemmas/Ieee.lean', 'Lemmas/Subdivide.lean', 'Lemmas/Triangle.lean', 'Lemmas/TriSpecialize.lean', 'Lemmas/TriSpecializePy.lean',
                     'Model/Basic.lean', 'Model/Curve.lean', 'Model/Triangle.lean'],
     'script': 'props/c09.py',
@@ -15,8 +15,9 @@ ENTRY = {
             'generic: specialize_triangle called directly with the six weights for every degree incl. 1..4; '
             'de_casteljau_one_round against one exact round; non-trivial = net not all zero; distinct by hash of '
             'exact inputs',
-    'partial': ['rounding: the comparator tolerance 4(3d+6)u * abs-blossom for binary64 nets is an engineering bound; no '
-                'Lean rounding theorem for the triangle rounds yet (the exact statements are complete)'],
+    'partial': [
+                'rounding theorems (Props/C09Rounding): generic specialisation / subdivision, both variants: exponent 3d with the absolute blossom as scale (Python path under fl idempotent and weights representable); table path degree 1..4: exponent N+1; the comparator 4(3d+6)u exceeds all of them; NOT covered: the Fortran closed forms of subdivide_nodes for degree 1..4 are modelled as matrix products, so for the compiled configuration at d <= 4 the comparator constant remains an engineering bound on the operation order',
+    ],
     'trusted_base': ['modelled not verified: subdivide_nodes / specialize_triangle / make_transform / reduced_to_matrix / '
                      'de_casteljau_one_round in triangle_helpers.py and triangle.f90; Triangle.subdivide glue; the six '
                      'weight literals inside the Fortran generic branch are read by the differential runs, not by the '
